@@ -65,7 +65,7 @@ def chk(prop, cond, msg, **data):
 
 def oracle_views(w, c, props, probe_extra=()):
     """C02 (and the read half of C01): every view equals the ghost map."""
-    P = 'C02' if 'C02' in props else 'C01'
+    P = 'C08' if 'C08' in props else 'C02' if 'C02' in props else 'C01'
     keys = sorted(w.model)
     absent = sorted((w.ever - set(w.model)) | set(probe_extra) | {w.key(b'never stored \x00\x01')})
     listed = list(c.list_all_objects())
@@ -508,6 +508,7 @@ def oracle_bulk(w, c, rng):
 WEIGHTS = {
     'default': {'add_loose': 5, 'add_pack': 4, 'pack_all_loose': 3, 'clean': 2, 'repack': 1.5, 'delete': 1.5, 'loosen': 1,
                 'import': 1, 'reopen': 1, 'new_handle': .3, 'reinit': .3},
+    'C08': {'add_loose': 8, 'pack_all_loose': 4, 'clean': 4, 'new_handle': 3, 'reopen': .5, 'add_pack': 1},
     'C13': {'add_loose': 5, 'add_pack': 6, 'pack_all_loose': 3, 'clean': 2, 'import': 1.5, 'reopen': 1.5, 'new_handle': .3},
     'C09': {'add_loose': 6, 'add_pack': 7, 'pack_all_loose': 3, 'clean': 2, 'import': 1, 'reopen': 1, 'loosen': 1},
     'C14': {'add_loose': 2, 'add_pack': 2, 'pack_all_loose': 1, 'import': 6, 'reopen': .5},
@@ -557,8 +558,8 @@ def run_history(prop, seed, index, nsteps, big=False, stop_after=None, record=No
                 ops.append(op)
                 desc['failing_step'] = step
                 repacked = apply_op(w, op, props)
-                for c in w.handles[:1] if prop not in ('C02',) else w.handles:
-                    if prop in ('C01', 'C02'):
+                for c in w.handles[:1] if prop not in ('C02', 'C08') else w.handles:
+                    if prop in ('C01', 'C02', 'C08'):
                         oracle_views(w, c, props)
                 if prop == 'C03':
                     oracle_disk(w, props)
